@@ -242,7 +242,9 @@ def _expand_mutex_groups(G: nx.DiGraph, nodes: list[HyperNode]) -> list[list[set
         elif not isinstance(node, IfElseNode):
             continue
 
-        targets = [t for t in node.targets if t is not END and isinstance(t, str)]
+        # Targets that are not nodes of this graph are reported by
+        # validate_graph (_validate_gate_targets); they have no reachability here.
+        targets = [t for t in node.targets if t is not END and isinstance(t, str) and t in G]
         if len(targets) < 2:
             continue
 
